@@ -2187,6 +2187,38 @@ def _rule5(model, rep):
 # ---------------------------------------------------------------------------
 
 
+def _rule6(ctx, rep):
+    """a request that failed on the server is not answered as if it had been served (added after seeded change C07-9:
+    Worker.dataReceived caught every exception of do() and replied None; the client's `isnew = not <reply>` turned that
+    into "new" for a set whose catalogue entry was never written)"""
+    prog = ctx.prog
+    W = 'dawgie.db.shelve.comms.Worker'
+    with rep.rule(
+        'R-C07-6',
+        'the shelve server sends replies only from the branch that served the request: no reply primitive (_send / transport.write) is called from an except handler or finally block of Worker.dataReceived / Worker.do',
+        floor=2,
+        breaks='a set that failed half way is acknowledged with a made-up value: the client reports the content as new (or as stored) although the catalogue has no entry for it',
+    ) as r:
+        for name in ('dataReceived', 'do'):
+            f = prog.nfunc(f'{W}.{name}')
+            rep.analysed(f)
+            r.instance()
+            bad = []
+            for t in [n for n in f.own_nodes() if isinstance(n, ast.Try)]:
+                for blk in [h.body for h in t.handlers] + [t.finalbody]:
+                    for b in blk:
+                        for x in ast.walk(b):
+                            if isinstance(x, ast.Call) and isinstance(x.func, ast.Attribute) and (x.func.attr == '_send' or (x.func.attr == 'write' and norm(x.func.value).endswith('transport'))):
+                                bad.append(x)
+            r.check(
+                not bad,
+                f'{f.qname}:no-reply-from-failure-path',
+                where(f, bad[0] if bad else None),
+                'replies are sent only where the request was served',
+                f'{f.qname} answers from an exception path ({norm(bad[0])[:50] if bad else ""}): the client cannot tell a failed request from a served one',
+            )
+
+
 def check(ctx):
     rep = Report(
         PID,
@@ -2219,6 +2251,7 @@ def check(ctx):
     _rule3(model, rep)
     _rule4(model, rep)
     _rule5(model, rep)
+    _rule6(ctx, rep)
     for q, rn in model._runs.items():
         if rn.events:
             rep.analysed(ctx.prog.funcs[q])
@@ -2246,6 +2279,7 @@ _SET3 = """value, exists = dawgie.db.util.move(*request.value)
             DBI().tables[request.table.value][key] = value"""
 
 VARIANTS = [
+    V('failed request answered with None', 'B', 'db/shelve/comms.py', 'Worker.dataReceived', 'finally:\n                        self.transport.loseConnection()', 'except Exception:\n                        self._send(None)\n                    finally:\n                        self.transport.loseConnection()', 'R-C07-6'),
     # ---- R-C07-1
     V('md5 taken of the value repr instead of the file', 'B', _U, 'encode', _MD5, 'm = str(hash(repr(value)))', 'R-C07-1'),
     V('digest taken while the pickle is still open', 'B', _U, 'encode',
